@@ -1,4 +1,5 @@
 """C09: updown topranking gives identical results for CSV and FASTA inputs."""
+import os
 import common as cm
 import cmdlayer
 import gen
@@ -20,7 +21,8 @@ def generate(ctx):
     cs = []
     n = 50 if ctx.tier == "quick" else 800
     for cid in range(n):
-        ref, queries, targets = udgen.make_inputs(rng, nq=rng.choice([1, 2, 2, 3, 4]))
+        # one case with more queries than any stage has buffer slots or workers (channel capacities are runtime.NumCPU())
+        ref, queries, targets = udgen.make_inputs(rng, nq=rng.choice([1, 2, 2, 3, 4]) if cid != 1 else 3 * (os.cpu_count() or 8) + 7)
         if cid % 4 == 3:
             # "for every reference": gaps, N and IUPAC codes in the reference too (updown list only warns about them);
             # both commands read the reference themselves and must read it alike
@@ -28,6 +30,12 @@ def generate(ctx):
             for _ in range(rng.randint(1, 3)):
                 r[rng.randrange(len(r))] = rng.choice("--NRY")
             ref = "".join(r)
+        if cid % 5 == 2:
+            # sequence IDs are free text up to the first white space: commas, quotes and other punctuation have to survive
+            # the CSV that updown list writes and topranking reads back
+            odd = ['a,b%d', 'q"%d', '"quoted%d"', "hCoV-19/x,y|%d", "it's;%d", ",%d", '%d,', 'x""y%d']
+            queries = [(rng.choice(odd) % i, s) for i, (_, s) in enumerate(queries)]
+            targets = [((rng.choice(odd) % (100 + i)) if rng.random() < 0.5 else nm, s) for i, (nm, s) in enumerate(targets)]
         o = udgen.random_opts(rng, len(targets))
         c = tr_case(cid, ref, queries, targets, o, rng, {"kind": "fasta/fasta", "nontrivial": len(queries) > 1})
         cs.append(c)
@@ -86,9 +94,11 @@ def post_go(ctx, cases, obs):
     # one row per query in query-file order (list form) / query order (table form)
     for c in cases:
         if obs[c["id"]]["status"] == "ok" and not c["info"]["opts"]["table"]:
-            names = [l.split(",")[0] for l in cm.unb64(obs[c["id"]]["out"]).decode().split("\n")[1:] if l]
-            if names != [n for n, _ in c["info"]["queries"]]:
-                c["sample"].setdefault("oracle_problems", []).append("rows %r, expected one per query in order" % names)
+            lines = [l for l in cm.unb64(obs[c["id"]]["out"]).decode().split("\n")[1:] if l]
+            want = [n for n, _ in c["info"]["queries"]]
+            # the query ID is written as it is (it may itself contain commas): each row has to begin with its ID and a comma
+            if len(lines) != len(want) or any(not l.startswith(n + ",") for l, n in zip(lines, want)):
+                c["sample"].setdefault("oracle_problems", []).append("rows %r, expected one per query in order %r" % ([l[:30] for l in lines], want))
                 if c not in bad:
                     bad.append(c)
     _state["second_stage_runs"] = len(stage) + len(stage2)
